@@ -467,3 +467,61 @@ def pulse (ps : List Pos) : Option Pulse :=
         some { p2 with aEq := c.assets, lEq := c.liabs, bkrErr := bk }
 
 end Mfi.Risk
+
+namespace Mfi.Risk
+open Mfi Mfi.Fx Mfi.Gen
+
+/-! ### classic liquidation (instructions/marginfi_account/liquidate.rs) -/
+
+structure LiqAmounts where
+  liquidator : Int     -- liability the liquidator takes on (bits)
+  final : Int          -- liability the liquidatee is relieved of
+  fee : Int            -- insurance fund fee = liquidator − final
+  feeWhole : Int       -- whole tokens moved liquidity vault → insurance vault
+  feeFrac : Int        -- added to collected_insurance_fees_outstanding
+  deriving DecidableEq, Repr
+
+def subP (a b : Int) : Res Int := if inRange (a - b) then .ok (a - b) else .error .panic
+def addP (a b : Int) : Res Int := if inRange (a + b) then .ok (a + b) else .error .panic
+
+/-- the amounts block of `lending_account_liquidate`: `assetAmount` whole tokens seized, valued at the
+    low-biased real-time asset price, converted at the high-biased real-time liability price -/
+def liquidationAmounts (assetAmount assetPrice liabPrice decA decL : Int) : Res LiqAmounts := do
+  let amt := ofInt assetAmount
+  let fees ← addP LIQUIDATION_INSURANCE_FEE LIQUIDATION_LIQUIDATOR_FEE
+  let finalDiscount ← subP ONE fees
+  let liqDiscount ← subP ONE LIQUIDATION_LIQUIDATOR_FEE
+  let v1 ← calcValue amt assetPrice decA (some liqDiscount)
+  let liquidator ← calcAmount v1 liabPrice decL
+  let v2 ← calcValue amt assetPrice decA (some finalDiscount)
+  let final ← calcAmount v2 liabPrice decL
+  let fee ← subP liquidator final
+  if fee < 0 then .error .panic else
+  match toU64? fee with
+  | none => err E.MathError
+  | some w => .ok { liquidator, final, fee, feeWhole := w, feeFrac := frac fee }
+
+/-- `check_pre_liquidation_condition_and_get_account_health(Some(liab_bank), .., false)`; `lp` = the
+    liquidatee's position in the liability bank (None: LendingAccountBalanceNotFound) -/
+def preLiquidationFor (ps : List Pos) (lp : Option Pos) : Res Int :=
+  match lp with
+  | none => err E.LendingAccountBalanceNotFound
+  | some p =>
+    if liabEmpty p then err E.NoLiabilitiesInLiabilityBank
+    else if !assetEmpty p then err E.AssetsInLiabilityBank
+    else do
+      let (h, _, _) ← preLiquidation ps false
+      .ok h
+
+/-- `check_post_liquidation_condition_and_get_account_health(liab_bank, pre_health)` -/
+def postLiquidation (ps : List Pos) (lp : Pos) (pre : Int) : Res Int :=
+  if liabEmpty lp then err E.ExhaustedLiability
+  else if !assetEmpty lp then err E.TooSeverePayoff
+  else do
+    let c ← components ps .maint
+    let h ← math (sub? c.assets c.liabs)
+    if ¬ (h ≤ 0) then err E.TooSevereLiquidation
+    else if h ≤ pre then err E.WorseHealthPostLiquidation
+    else .ok h
+
+end Mfi.Risk
